@@ -1249,11 +1249,10 @@ def abl_decode_longer_record(h):
     known prefix'; C05: 'record strides announced by the console are honoured'."""
     fl = h.choice("following_length", list(range(25, 51)))
     n = 2 + fl
-    buf = h.bytes("data", n)
+    # Byte4 announces the following length of this one record; empty AC name (keeps the path count small; names are
+    # covered by the unbounded set); the bytes beyond the known 26-byte layout are zero (bounded witness set)
+    buf = h.bytes("data", n, fixed=dict([(1, fl), (2, 0)] + [(i, 0) for i in range(26, n)]))
     b = h.items(buf)
-    h.assume(b[1] == fl, "Byte4 announces the following length of this one record")
-    h.assume(b[2] == 0, "empty AC name (keeps the path count small; names are covered by the unbounded set)")
-    h.assume(And(*[x == 0 for x in b[26:]]), "the bytes beyond the known 26-byte layout are zero (bounded witness set)")
     r = h.method(h.new(ABL + ":AcAbilityDecoder"), "decode", buf, at4_subheader(h, SUB_ABILITY, n))
     h.oblige("a record longer than the known layout is not rejected for its length", r.ok)
     if not r.ok:
